@@ -20,7 +20,7 @@ func init() {
 			"C19.records — every csv Read call site in the create command is classified: the first record is the header and flows only into the header normalisation; every other read sits in the record loop, and on its non-error path the record is turned into a row (values[header[i]] = record[i] for the same range index i over the record, header being the normalised header) that reaches exactly one AddRow before the next read, on every path; no record is read and dropped; the reading may sit in helpers of the command (a function given the reader and the header, or a helper type that keeps the reader and the normalised header in fields, reads the header in its constructor and returns one row per call): the header is followed through parameters, helper results and struct fields that are only ever assigned it, and a helper that returns the row instead of adding it must return a faithful row for every record it read and tell its caller (flag or non-nil error) when it has none, the caller then owes exactly one AddRow per returned row and none otherwise; " +
 			"C19.normalize — the header normalisation lower-cases and then maps every rune through a function that returns either its argument, only under a test r >= 'a' && r <= 'z', or the constant '_'; " +
 			"C19.errexit — errors of reading (except io.EOF, which ends the input), AddRow, Flush, both bbolt.Open calls and the big writer's constructor reach the command's error result; the cobra RunE closure returns it and main exits with a non-zero constant when Execute fails; " +
-			"C19.txrelease — a writer that keeps a bbolt write transaction open between calls has a method that rolls it back, and the command runs it (deferred) on every path after constructing the writer, so a failure cannot leave DB.Close waiting on a pending transaction (the command would hang instead of exiting non-zero); " +
+			"C19.txrelease — a writer that keeps a bbolt write transaction open between calls has a method that rolls it back, and the command runs it (deferred) on every path after constructing the writer — itself, or through a release function that the set-up helper hands back on success (a closure that runs the release before it closes the databases, or a runner of a grow-only list of cleanups, last one first, to which such a closure was added last) and that every caller of the helper runs on every path —, so a failure cannot leave DB.Close waiting on a pending transaction (the command would hang instead of exiting non-zero); " +
 			"C19.notouch — every file-mutating os call reachable from the create command targets the temporary file the command made itself (os.CreateTemp) or a file that this run is proved to have created exclusively (dominated by the successful O_EXCL open; guarded by an ownership flag of a per-run object or local variable that is only set after that open succeeded; in a cleanup closure made after it) — never a path that may name a pre-existing output; " +
 			"C19.flush — the successful return is preceded by Flush on every path; C19.excl — the big-mode output (and the output of a writer type of the command's own) is opened with O_EXCL and the scratch database without O_CREATE, also where the open sits in a helper of the command (as C16, same census). " +
 			"NOT decided: observational identity of normal and --big output (C05's value-level clause); CSV parsing itself (encoding/csv, trusted); distinctness of headers after normalisation (excluded by the property).",
@@ -1474,7 +1474,8 @@ var _ = types.Typ
 // txReleaseRule: a writer that keeps a bbolt write transaction open between calls (a *bbolt.Tx field assigned from
 // DB.Begin(true)) must offer a method that rolls that transaction back, and the create command must run it (normally by
 // defer) on every path after the writer was constructed: bbolt's DB.Close waits for pending transactions, so abandoning
-// the writer on an error path makes the command hang instead of failing.
+// the writer on an error path makes the command hang instead of failing. The duty may be handed to the callers of a
+// set-up helper as a function value (txHand, rules_ag45.go).
 func txReleaseRule(c *Ctx, rule string) {
 	type held struct {
 		fld   *types.Var
@@ -1534,22 +1535,7 @@ func txReleaseRule(c *Ctx, rule string) {
 			c.r.bad(rule, key, "the type keeps a write transaction open between calls but has no method that rolls it back: a caller that gives up before Flush cannot close the database any more (DB.Close blocks on the pending transaction)", []string{c.w.pos(h.fld.Pos())})
 			continue
 		}
-		isRelease := func(i ssa.Instruction) bool {
-			cc := callCommon(i)
-			if cc == nil {
-				return false
-			}
-			if _, isGo := i.(*ssa.Go); isGo {
-				return false
-			}
-			f := calleeFunc(cc)
-			for _, r := range release {
-				if f == r {
-					return true
-				}
-			}
-			return false
-		}
+		// what counts as running a release method: txHand.relInstr (rules_ag45.go)
 		// constructors: module functions returning *owner
 		n := 0
 		for _, fn := range c.w.ModFuncs {
@@ -1571,21 +1557,11 @@ func txReleaseRule(c *Ctx, rule string) {
 				n++
 				ckey := fmt.Sprintf("%s: %s#%d", safeFname(fn), safeFname(ctor), n)
 				errv := resultValue(call, ctor.Signature.Results().Len()-1)
-				ctorFailed := func(pred, succ *ssa.BasicBlock) bool {
-					iff, ok := pred.Instrs[len(pred.Instrs)-1].(*ssa.If)
-					if !ok || errv == nil {
-						return false
-					}
-					for _, cm := range trueCmps(fact{iff.Cond, pred.Succs[0] == succ}) {
-						// holdsErr: also when err is a named result that a deferred closure captures (`*err = errv; t = *err; if t != nil`)
-						if cm.Op == token.NEQ && cm.Y != nil && holdsErr(cm.X, errv) && isNilConst(cm.Y) {
-							return true
-						}
-					}
-					return false
-				}
-				if p := c.fc.pathFrom(fn, call, func(x ssa.Instruction) bool { _, r := x.(*ssa.Return); return r }, isRelease, ctorFailed); p != nil {
-					c.r.bad(rule, ckey, "after the writer was created the command can return without releasing the writer's pending transaction: the deferred Close of the temporary database then waits forever and the command hangs instead of exiting with an error (e.g. on a malformed CSV record in --big mode)",
+				// the duty may be met here, or handed to the callers as a function value that runs the release
+				// (rules_ag45.go): the witness is then a path of the function that drops it
+				hand := newTxHand(c, release)
+				if p, note := hand.unreleased(&txSite{fn, call, failedEdge(errv)}, 0); p != nil {
+					c.r.bad(rule, ckey, "after the writer was created the command can return without releasing the writer's pending transaction: the deferred Close of the temporary database then waits forever and the command hangs instead of exiting with an error (e.g. on a malformed CSV record in --big mode)"+note,
 						[]string{c.w.ipos(p[len(p)-1])}, c.fc.witnessStrings(p)...)
 				} else {
 					c.r.ok(rule, ckey, "the writer's pending transaction is released (deferred) on every path", c.w.ipos(call))
